@@ -11,6 +11,10 @@ CONSTANTS
   CatchUpWriteErrorFatal = TRUE
   SwallowWriteError = FALSE
   AnnounceBeforeWrite = TRUE
+  MaxReads = 0
+  CachedAccessor = FALSE
+  ErrKinds = {"transport", "timeout", "notfound", "cancel"}
+  NotFoundMeansLatest = FALSE
   FinalityAfterNotices = TRUE
 INIT Init
 NEXT Next
